@@ -77,15 +77,20 @@ def unmBool : JTree → Except Err GoVal
   | .bool b => .ok (.bool b)
   | _ => .error .kind
 
+/-- `ReadValue` (used by the string, int, uint and float arshalers, not by bool) consumes and
+validates the whole JSON value before the kind switch, so a duplicate name inside a value of the
+wrong kind is reported as the (syntactic) duplicate-name error rather than the kind mismatch. -/
+def wrongKind (j : JTree) : Err := if j.dupFree then .kind else .dup
+
 def unmString : JTree → Except Err GoVal
   | .null => .ok (.str [])
   | .str s => .ok (.str s)
-  | _ => .error .kind
+  | j => .error (wrongKind j)
 
 def unmFloat : JTree → Except Err GoVal
   | .null => .ok (.float [0x30])
   | .num l => .ok (.float l)
-  | _ => .error .kind
+  | j => .error (wrongKind j)
 
 def unmInt (bits : Nat) : JTree → Except Err GoVal
   | .null => .ok (.int 0)
@@ -97,7 +102,7 @@ def unmInt (bits : Nat) : JTree → Except Err GoVal
       let maxInt := 2 ^ (bits - 1)
       if (neg && n > maxInt) || (!neg && n > maxInt - 1) then .error .range
       else .ok (.int (if neg then -(n : Int) else (n : Int)))
-  | _ => .error .kind
+  | j => .error (wrongKind j)
 
 def unmUint (bits : Nat) : JTree → Except Err GoVal
   | .null => .ok (.uint 0)
@@ -105,7 +110,7 @@ def unmUint (bits : Nat) : JTree → Except Err GoVal
     match parseNat l with
     | none => .error .numSyntax
     | some n => if n > 2 ^ bits - 1 then .error .range else .ok (.uint n)
-  | _ => .error .kind
+  | j => .error (wrongKind j)
 
 /-! ### Generic loops (parameterised by the element decoder) -/
 
@@ -151,37 +156,42 @@ def objFold (dec : Bytes → Option Dec) (zeroOf : Bytes → GoVal) :
 
 /-! ### `any` -/
 
-/-- Check of the dynamic value held by a non-nil interface against the JSON kind. -/
-def anyPrior (p : GoVal) (accept : GoVal → Bool) : Except Err Unit :=
-  match p with
-  | .nilIface => .ok ()
-  | .ifaceOf dv =>
-    if accept dv then .ok () else if dv.dynType.isSome then .error .kind else .error .unmodelled
-  | _ => .error .illTyped
-
 def isBoolV : GoVal → Bool | .bool _ => true | _ => false
 def isFloatV : GoVal → Bool | .float _ => true | _ => false
 def isStrV : GoVal → Bool | .str _ => true | _ => false
 def isSliceV : GoVal → Bool | .nilSlice => true | .sliceOf _ => true | _ => false
+
+/-- Error of unmarshaling `j` into a held dynamic value `dv` that does not accept its kind:
+the arshaler of the dynamic type decides (float64/string read the whole value first, see
+`wrongKind`; bool, []any, map[string]any read one token). -/
+def heldMismatch (j : JTree) (dv : GoVal) : Err :=
+  if dv.dynType.isSome then (if isFloatV dv || isStrV dv then wrongKind j else .kind) else .unmodelled
+
+/-- Check of the dynamic value held by a non-nil interface against the JSON kind. -/
+def anyPrior (j : JTree) (p : GoVal) (accept : GoVal → Bool) : Except Err Unit :=
+  match p with
+  | .nilIface => .ok ()
+  | .ifaceOf dv => if accept dv then .ok () else .error (heldMismatch j dv)
+  | _ => .error .illTyped
 
 mutual
 /-- Unmarshal into a destination of type `any` holding `p` (`nilIface` or `ifaceOf dv`). -/
 def unmAny : JTree → GoVal → Except Err GoVal
   | .null, _ => .ok .nilIface
   | .bool b, p =>
-    match anyPrior p isBoolV with
+    match anyPrior (.bool b) p isBoolV with
     | .error e => .error e
     | .ok _ => .ok (.ifaceOf (.bool b))
   | .num l, p =>
-    match anyPrior p isFloatV with
+    match anyPrior (.num l) p isFloatV with
     | .error e => .error e
     | .ok _ => .ok (.ifaceOf (.float l))
   | .str s, p =>
-    match anyPrior p isStrV with
+    match anyPrior (.str s) p isStrV with
     | .error e => .error e
     | .ok _ => .ok (.ifaceOf (.str s))
   | .arr xs, p =>
-    match anyPrior p isSliceV with
+    match anyPrior (.arr xs) p isSliceV with
     | .error e => .error e
     | .ok _ =>
       match unmAnyL xs with
@@ -201,7 +211,7 @@ def unmAny : JTree → GoVal → Except Err GoVal
       match unmAnyM ms [] m0 with
       | .error e => .error e
       | .ok m => .ok (.ifaceOf (.mapOf m))
-    | .ifaceOf dv => if dv.dynType.isSome then .error .kind else .error .unmodelled
+    | .ifaceOf dv => .error (heldMismatch (.obj ms) dv)
     | _ => .error .illTyped
 /-- `elemsFresh unmAny nilIface` -/
 def unmAnyL : List JTree → Except Err (List GoVal)
